@@ -2,7 +2,7 @@
 META = {
     "level": "exploration",
     "technique": "runtime monitoring of real directory trees on an in-process grid: authority oracle on every node reached through read-caps, behavioural write attempts, plaintext secret search and an independent rwcap decryptor",
-    "text": "Builds random directory trees (depth <= 4) on a grid of real storage servers with CHK/LIT/SDMF/MDMF files, SDMF/MDMF/immutable/literal directories and unknown future caps (with and without ro./imm. prefixes, in rw and ro slots), linked through set_node/set_uri/create_subdirectory/initial children with write-caps, read-caps and 'no-write' metadata. The root is opened through its read-cap (fresh client and the building client) and immutable/inner directories through theirs; every transitively reached child must report read-only authority (is_readonly, get_write_uri None, cap string not a write cap, no writekey in any reported string) and real write attempts through such nodes must fail and leave the object unchanged. The plaintext of every mutable directory is downloaded with the read-cap only: no child write-cap or writekey occurs in it (this includes lone unknown-format caps handed over without ro./imm. prefix in the write-cap slot only, through set_uri, set_children, create_subdirectory(initial_children) and create_dirnode(initial_children): refused or accepted, the string must never be visible to readers), and a decryptor re-typed from the specification (tagged SHA-256d pair hash of salt and key, AES-128-CTR) reproduces every child write-cap from the writekey and none from anything derivable from the read-cap. Sampled, not exhaustive.",
+    "text": "Builds random directory trees (depth <= 4) on a grid of real storage servers with CHK/LIT/SDMF/MDMF files, SDMF/MDMF/immutable/literal directories and unknown future caps (with and without ro./imm. prefixes, in rw and ro slots), linked through set_node/set_uri/create_subdirectory/initial children with write-caps, read-caps and 'no-write' metadata. The root is opened through its read-cap (fresh client and the building client) and immutable/inner directories through theirs; every transitively reached child must report read-only authority (is_readonly, get_write_uri None, cap string not a write cap, no writekey in any reported string) and real write attempts through such nodes must fail and leave the object unchanged. The plaintext of every mutable directory is downloaded with the read-cap only: no child write-cap or writekey occurs in it (this includes lone unknown-format caps handed over without ro./imm. prefix in the write-cap slot only, through set_uri, set_children, create_subdirectory(initial_children) and create_dirnode(initial_children): refused or accepted, the string must never be visible to readers), a child that the writer's client has on its access.blacklist and that the writer re-packs (metadata update, rename, re-link) stays equally protected, keystreams protecting different write-caps in one directory differ (known-plaintext: one known child write-cap must not reveal a sibling's), and a decryptor re-typed from the specification (tagged SHA-256d pair hash of salt and key, AES-128-CTR) reproduces every child write-cap from the writekey and none from anything derivable from the read-cap. Sampled, not exhaustive.",
     "note": "Trusts the `cryptography` AES primitive, the hash tags re-typed in _dir.py/_caps.py and the in-process wire; read-key-derived material is a fixed list of 11 derivations (tagged-hash and raw-key use), not all computable functions.",
 }
 LEVEL = "exploration"
@@ -77,7 +77,8 @@ def run(ck):
                      "ro-walk-immutable-dir", "rw-walk-writeable-child", "no-write-link", "unknown-with-rw-stored",
                      "mdmf-directory", "sdmf-directory", "literal-directory", "immutable-root-walk",
                      "lone-unknown-writecap-add-attempted", "lone-unknown-writecap-via-set_uri", "lone-unknown-writecap-via-set_children",
-                     "lone-unknown-writecap-via-initial-children")
+                     "lone-unknown-writecap-via-initial-children", "blacklisted-child-repacked")
+    ck.require_monitor("sibling-write-cap-known-plaintext")
 
 
 def one_case(ck, g, rng, caseno):
@@ -333,6 +334,39 @@ def one_case(ck, g, rng, caseno):
 
     root = build_mut_dir(1, is_root=True)
 
+    # ---- a read-write child is put on the WRITER's access.blacklist; the writer then re-packs that very entry
+    #      (metadata update / rename / re-link): the stored entry must still keep the write-cap out of readers' reach
+    bl = [(p_, n_, l_) for p_ in allobjs if p_.kind in ("dir-sdmf", "dir-mdmf") for n_, l_ in sorted(p_.links.items())
+          if l_.rw is not None and l_.obj.kind in ("ssk", "mdmf", "dir-sdmf", "dir-mdmf")]
+    if bl and rng.random() < .75:
+        import os
+        p_, n_, l_ = rng.choice(bl)
+        fn = c.config.get_config_path("access.blacklist")
+        with open(fn, "wb") as f:
+            f.write(b"# written by vf C18\n" + D.b32(l_.obj.info.si) + b" prohibited for the purpose of the check\n")
+        how = rng.choice(["set_metadata_for", "rename", "re-link"])
+        try:
+            seen_node = D.ok(g, p_.node.get(n_), "get blacklisted child")
+            if type(seen_node).__name__ == "ProhibitedNode":
+                ck.hit("blacklist-took-effect")
+            if how == "set_metadata_for":
+                md = D.gen_metadata(rng)
+                D.ok(g, p_.node.set_metadata_for(n_, md), "set_metadata_for blacklisted child")
+                l_.md = md
+            elif how == "rename":
+                new = "blacklisted-%s" % tag().decode()
+                D.ok(g, p_.node.move_child_to(n_, p_.node, new), "rename blacklisted child")
+                del p_.links[n_]
+                p_.links[new] = l_
+            else:
+                md = D.gen_metadata(rng)
+                D.ok(g, p_.node.set_node(n_, seen_node, md), "re-link blacklisted child")
+                l_.md = md
+            l_.how += "+blacklisted:" + how
+            ck.hit("blacklisted-child-repacked")
+        finally:
+            os.remove(fn)
+
     def signature(o, depth=0):
         if depth > 6:
             return "..."
@@ -522,6 +556,34 @@ def one_case(ck, g, rng, caseno):
             ck.inconclusive_because("independent directory parser failed: %s" % e)
             continue
         material = D.readkey_material(o.info)
+        # known-plaintext: a reader who additionally knows ONE child's write-cap (e.g. its own) must not get the others:
+        # the keystreams protecting different write-caps in one directory must differ
+        known = []
+        for e in entries:
+            try:
+                l0 = o.links.get(D.nfc(e.name_utf8.decode("utf-8")))
+            except UnicodeDecodeError:
+                l0 = None
+            if l0 is not None and l0.rw and len(e.rwcapdata) >= 48 + 20:
+                known.append((e, l0))
+        for a_i, (ea, la) in enumerate(known):
+            ct_a = ea.rwcapdata[16:-32]
+            if len(ct_a) != len(la.rw):
+                continue
+            stream = bytes(x ^ y for x, y in zip(ct_a, la.rw))
+            for (eb, lb) in known[a_i + 1:]:
+                if lb.rw == la.rw:
+                    continue
+                ck.mon("sibling-write-cap-known-plaintext")
+                ct_b = eb.rwcapdata[16:-32]
+                n_ = min(len(stream), len(ct_b), len(lb.rw))
+                rec_ = bytes(x ^ y for x, y in zip(ct_b[:n_], stream[:n_]))
+                if rec_ == lb.rw[:n_] or ea.rwcapdata[:16] == eb.rwcapdata[:16]:
+                    ck.violation("child-write-cap-recoverable-from-sibling-write-cap",
+                                 "in one directory the rwcap slots of %r and %r (different write-caps) use the same salt/keystream: "
+                                 "ciphertext XOR known write-cap of the first yields %r" % (
+                                     ea.name_utf8.decode("utf-8", "replace"), eb.name_utf8.decode("utf-8", "replace"), D.show(rec_[:60])),
+                                 dict(desc, directory=D.show(o.info.readonly)))
         for e in entries:
             try:
                 name = D.nfc(e.name_utf8.decode("utf-8"))
@@ -580,3 +642,7 @@ def one_case(ck, g, rng, caseno):
 #                                       holds the write node gets it back for the read-cap -> readonly-path-yields-writeable-child
 #   seeded/C18-2                        UnknownNode keeps going after MustNotBeUnknownRWError: lone unprefixed unknown write-cap lands
 #                                       in the cleartext ro slot -> directory-plaintext-contains-write-cap, unknown-write-cap-visible-to-readers
+#   seeded/C18-4                        ProhibitedNode.get_readonly_uri() returns the full cap: blacklisted rw child re-packed by the writer
+#                                       -> directory-plaintext-contains-write-cap, readonly-path-yields-writeable-child
+#   seeded/C18-3                        rwcap salt derived from the directory writekey (one keystream per directory)
+#                                       -> child-write-cap-recoverable-from-sibling-write-cap
